@@ -13,6 +13,7 @@ class Req:
     def __init__(self, tag, h, rid, t):
         self.tag, self.hash, self.id, self.added = tag, h, rid, t
         self.sent = False          # all its bytes reached the server
+        self.sent_at = None
         self.valid_reply = False   # an authentic status-0 reply with its id was put on the wire
         self.early_reply = False   # ... before its last byte was sent
         self.status_err = False
@@ -276,10 +277,17 @@ class Monitor:
         self.check_counts()
 
     def time_causes(self):
+        # the send timeout runs from the moment the request was added until it is on the wire, the receive timeout from
+        # the moment it was sent (net_async.h: "between when the request was sent out and a response has been received")
         for q in self.outstanding():
-            el = self.now - q.added
-            if self.snd_to == 0 or self.rcv_to == 0 or el > min(self.snd_to, self.rcv_to):
-                q.causes.add('timeout (elapsed %d s)' % el)
+            if not q.sent:
+                el = self.now - q.added
+                if self.snd_to == 0 or el > self.snd_to:
+                    q.causes.add('send timeout (%d s since it was added)' % el)
+            else:
+                el = self.now - q.sent_at
+                if self.rcv_to == 0 or el > self.rcv_to:
+                    q.causes.add('receive timeout (%d s since it was sent)' % el)
 
     def run(self):
         s = self.s
@@ -523,6 +531,7 @@ class HttpMonitor(Monitor):
             if q.sent:
                 self.viol('request-sent-twice', 'request %s sent in two transfers' % q.tag)
             q.sent = True
+            q.sent_at = self.now
             self.transfers[eid] = q
 
     def apply_pending(self):
@@ -661,8 +670,11 @@ def run_http_schedule(sess, rng, r, schedule, cache, label, snd_to=10, rcv_to=10
 def replay(ctx, path):
     """re-executes one recorded schedule verbosely"""
     import ast
-    line = [l for l in open(path).read().splitlines() if l.startswith('REPLAY ')][0]
-    d = ast.literal_eval(line[7:])
+    txt = open(path).read()
+    http = 'REPLAY-HTTP ' in txt
+    mark = 'REPLAY-HTTP ' if http else 'REPLAY '
+    line = txt[txt.index(mark) + len(mark):]
+    d = ast.literal_eval(line[:line.index('}') + 1])
     exe = kexec.build(ctx)
     r = pool.WorkerResult()
     sess = net.Session(exe, ctx.env(), ctx.work, None)
@@ -676,7 +688,10 @@ def replay(ctx, path):
         return q
     sess.cmd = sess.ex.cmd = verbose
     rng = random.Random(d['sub'])
-    m = Monitor(sess, rng, r, d['cache'], d['snd_to'], d['rcv_to'], d['con_to'], d['maxreq'], d['label'])
+    if http:
+        m = HttpMonitor(sess, rng, r, d['cache'], d['snd_to'], d['rcv_to'], 10, d['maxreq'], d['label'])
+    else:
+        m = Monitor(sess, rng, r, d['cache'], d['snd_to'], d['rcv_to'], d['con_to'], d['maxreq'], d['label'])
     for a in d['schedule']:
         print('ACTION', a)
         m.do(a)
